@@ -288,3 +288,20 @@ func (e *Env) Classify(q *qm.Q) string {
 	}
 	return ""
 }
+
+// ClassUnionDisjointProbe: the union "lookup" strategy, when the sources are
+// disjoint (no lookups needed), still probes the second source for every row
+// of the first with an empty selection (Union.getLookup calls source2Has
+// unconditionally; its dbg.Assert(disjoint == "") is compiled out). Harmless
+// on a table, but a TempIndex as second source panics "TempIndex makeKey not
+// full". Reached under a unique/group requirement that includes the disjoint
+// column with a non-minimum-cost choice.
+const ClassUnionDisjointProbe = "union-disjoint-lookup-probes-second-source"
+
+// ClassifyPanic classifies a failure message of a read.
+func ClassifyPanic(msg string) string {
+	if strings.Contains(msg, "TempIndex makeKey not full") && strings.Contains(msg, "union-disjoint(") {
+		return ClassUnionDisjointProbe
+	}
+	return ""
+}
